@@ -108,6 +108,8 @@ pub struct EpMeta {
 pub struct Ir {
     pub defs: BTreeMap<String, Def>,
     pub eps: Vec<EpMeta>,
+    /// endpoints with index below this come from ir/sim-ir.json (generated code exists for them)
+    pub generated: usize,
 }
 
 fn parse_ty(v: &Value) -> Ty {
@@ -145,10 +147,13 @@ fn parse_size(s: &str) -> usize {
     let digits: String = s.chars().take_while(|c| c.is_ascii_digit()).collect();
     let unit = s[digits.len()..].trim().to_string();
     let n: usize = digits.parse().unwrap();
+    // decimal (k, kb, m, mb) and binary (ki, kib, mi, mib) multiples, as commonly understood
     match unit.as_str() {
         "b" | "" => n,
-        "kib" | "k" | "kb" => n * 1024,
-        "mib" | "m" | "mb" => n * 1024 * 1024,
+        "k" | "kb" => n * 1000,
+        "ki" | "kib" => n * 1024,
+        "m" | "mb" => n * 1000 * 1000,
+        "mi" | "mib" => n * 1024 * 1024,
         o => panic!("unit {}", o),
     }
 }
@@ -263,7 +268,27 @@ pub fn ir() -> &'static Ir {
                 });
             }
         }
-        Ir { defs, eps }
+        // endpoints that exist only as hand-written macro traits (src/mirror.rs): multi-segment
+        // path parameters cannot be declared in a Conjure IR
+        let generated = eps.len();
+        eps.push(EpMeta {
+            idx: generated,
+            service: "MacroOnly".into(),
+            name: "segments".into(),
+            method: "GET".into(),
+            template: "/mo/{head}/raw/{tail}".into(),
+            segs: vec![Seg::Lit("mo".into()), Seg::Param("head".into()), Seg::Lit("raw".into()), Seg::Param("tail".into())],
+            auth: Auth::None,
+            args: vec![
+                ArgMeta { name: "head".into(), ty: Ty::Prim(Prim::String), kind: PKind::Path, param_id: "head".into(), safety: None, legacy_safe: false },
+                ArgMeta { name: "tail".into(), ty: Ty::List(Box::new(Ty::Prim(Prim::String))), kind: PKind::Path, param_id: "tail".into(), safety: None, legacy_safe: false },
+                ArgMeta { name: "q".into(), ty: Ty::List(Box::new(Ty::Prim(Prim::Integer))), kind: PKind::Query, param_id: "k&ey".into(), safety: None, legacy_safe: false },
+            ],
+            returns: Some(Ty::Prim(Prim::String)),
+            limit: None,
+            has_ctx: false,
+        });
+        Ir { defs, eps, generated }
     })
 }
 
